@@ -153,6 +153,7 @@ def run(ctx):
     model = {"replacements": 0, "withdrawn": 0, "timeouts": 0, "verdicts": 0, "end_pending": 0}
     distinct = set()
     t_all = time.time()
+    rl_rng = ctx.rng.__class__(ctx.seed + 4242)
 
     # ---- 1. TLC: exhaustive runs (B x A x ledger; abstract spec), generation of long histories -----------------------
     pool = ThreadPoolExecutor(24)
@@ -186,6 +187,11 @@ def run(ctx):
                 rt_thread.start()
         behaviours = [[s["e"] for s in b] for b in beh]
         tails = [R.probe_tail(b, svcs) for b in behaviours]
+        # every third behaviour: the operator changes `iauth { timeout }` and reloads while the requests are pending
+        behaviours = [C.with_reloads(b, svcs, timeout_on, rl_rng, 6) if i % 3 == 1 else b for i, b in enumerate(behaviours)]
+        # every second one: the same history with ids from another part of the int range
+        behaviours = [C.shift_ids(b, i) for i, b in enumerate(behaviours)]
+        tails = [C.shift_ids(t, i) for i, t in enumerate(tails)]
         for b in beh:       # what the model says these behaviours exercise (independent of the code under test)
             prev = 0
             for s in b:
@@ -240,6 +246,7 @@ def run(ctx):
             longs += [[dict(s["e"], pn=s["pn"]) for s in b] for b in lb]
         if not longs:
             continue
+        longs = [C.shift_ids(C.with_reloads(h, svcs, timeout_on, rl_rng, 150), i) for i, h in enumerate(longs)]
         t1 = time.time()
         res = C.hook_replay(ctx, longs, svcs, timeout_on, nproc=cfg["nproc"], tag="long%d" % timeout_on, per_proc=1,
                             live_every=2)
@@ -259,6 +266,8 @@ def run(ctx):
         for h in longs:
             prev = 0
             for e in h:
+                if e["e"] == "RL":
+                    continue
                 if e["e"] == "C" and e["pn"] == prev:
                     model["replacements"] += 1
                 prev = e["pn"]
